@@ -1165,6 +1165,116 @@ ok("C18", "pre and post control fused for inner steps when no state is recorded 
 ok("C18", "pre and post control fused (np.dot, != test) for inner steps when no state is recorded in between",
    _fuse('(not record_all) and step != num_steps', 'np.dot(post_measurement_control, pre_measurement_control)'))
 
+# ------------------------------------------------------------------ ownership (C03 M9, C18 O6, C20 A9)
+_CD_POST = '            # -- apply post measurement control --\n            if post_measurement_control is not None:\n                current_node, current_edges = _apply_system_superoperator(\n                    current_node, current_edges, post_measurement_control)\n\n            # -- propagate one time step --\n            first_half_prop, second_half_prop = propagators(step)\n            pt_mpos = _get_pt_mpos(process_tensors, step)\n'
+def _absorb(stmts):
+    return _sub(SD, _CD_POST, '            # -- propagate one time step --\n            first_half_prop, second_half_prop = propagators(step)\n            pt_mpos = _get_pt_mpos(process_tensors, step)\n\n            if post_measurement_control is not None:\n' + stmts)
+for _pid, _rule in (("C03", "M9"), ("C18", "O6"), ("C20", "A9")):
+    brk(_pid, "post control multiplied into the first half-step propagator in place", _rule,
+        _absorb('                first_half_prop @= post_measurement_control\n'))
+    brk(_pid, "post control written into the first half-step propagator with out=", _rule,
+        _absorb('                np.matmul(first_half_prop, post_measurement_control, out=first_half_prop)\n'))
+    ok(_pid, "post control absorbed into a new first half-step propagator",
+       _absorb('                first_half_prop = first_half_prop @ post_measurement_control\n'))
+    ok(_pid, "post control multiplied in place into a copy of the first half-step propagator",
+       _absorb('                first_half_prop = first_half_prop.copy()\n                first_half_prop @= post_measurement_control\n'))
+brk("C20", "occupation() zeroes the NaNs of the stored system correlations in place", "A9", _sub(
+    "oqupy/bath_dynamics.py", '        _sys_correlations = np.nan_to_num(_sys_correlations)\n        last_time = len(self._process_tensor)',
+    '        _sys_correlations[np.isnan(_sys_correlations)] = 0.0\n        last_time = len(self._process_tensor)'))
+
+# ------------------------------------------------------------------ memo kept on self by the propagator closure (C02 S7, C07 V9, C20 A7)
+SYS = "oqupy/system.py"
+_TD_SAMPLE = '                t = start_time + step * dt\n                first_step = expm(self.liouvillian(t+dt/4.0)*dt/2.0)\n                second_step = expm(self.liouvillian(t+dt*3.0/4.0)*dt/2.0)\n                return first_step, second_step\n'
+_TD_INIT = '        super().__init__(tmp_dimension, name, description)\n\n    def liouvillian(self, t: Optional[float] = None) -> ndarray:\n        r"""\n        Returns the Liouvillian super-operator :math:`\\mathcal{L}(t)` with'
+def _td_memo(key, container_init, container):
+    return _multi(
+        _sub(SYS, _TD_SAMPLE,
+             '                key = ' + key + '\n                if key in ' + container + ':\n                    return ' + container + '[key]\n' + _TD_SAMPLE.replace(
+                 '                return first_step, second_step\n',
+                 '                ' + container + '[key] = (first_step, second_step)\n                return first_step, second_step\n')),
+        container_init)
+_SELF_MEMO_INIT = _sub(SYS, '    def get_propagators(self, dt, start_time, subdiv_limit, epsrel):\n        """Prepare propagator functions for the system according to\n        subdiv_limit. """\n        if subdiv_limit is None:\n            # Sample',
+                       '    def get_propagators(self, dt, start_time, subdiv_limit, epsrel):\n        """Prepare propagator functions for the system according to\n        subdiv_limit. """\n        if not hasattr(self, "_sampled"):\n            self._sampled = {}\n        if subdiv_limit is None:\n            # Sample')
+_LOCAL_MEMO_INIT = _sub(SYS, '    def get_propagators(self, dt, start_time, subdiv_limit, epsrel):\n        """Prepare propagator functions for the system according to\n        subdiv_limit. """\n        if subdiv_limit is None:\n            # Sample',
+                        '    def get_propagators(self, dt, start_time, subdiv_limit, epsrel):\n        """Prepare propagator functions for the system according to\n        subdiv_limit. """\n        sampled = {}\n        if subdiv_limit is None:\n            # Sample')
+for _pid, _rule in (("C02", "S7"), ("C07", "V9"), ("C20", "A7")):
+    brk(_pid, "time dependent propagator closure memoises on self by step only", _rule,
+        _td_memo('step', _SELF_MEMO_INIT, 'self._sampled'))
+    brk(_pid, "time dependent propagator closure memoises on self by (step, dt)", _rule,
+        _td_memo('(step, dt)', _SELF_MEMO_INIT, 'self._sampled'))
+    ok(_pid, "time dependent propagator closure memoises on self by (step, dt, start_time)",
+       _td_memo('(step, dt, start_time)', _SELF_MEMO_INIT, 'self._sampled'))
+    ok(_pid, "time dependent propagator closure memoises by step in a dict of its own get_propagators call",
+       _td_memo('step', _LOCAL_MEMO_INIT, 'sampled'))
+
+# ------------------------------------------------------------------ corners of the cells (C12 L1, C01 N5)
+_ETA_BODY = """        if shape == 'upper-triangle':
+            integral = self.eta_function(time_1 + delta, **kwargs) \\
+                       - self.eta_function(time_1, **kwargs)
+        elif shape == 'square':
+            integral = self.eta_function(time_1 + delta, **kwargs) \\
+                       - 2.0 * self.eta_function(time_1, **kwargs) \\
+                       + self.eta_function(time_1 - delta, **kwargs)
+        elif shape == 'rectangle':
+            integral = self.eta_function(time_2, **kwargs) \\
+                       - self.eta_function(time_1, **kwargs) \\
+                       - self.eta_function(time_2 - delta, **kwargs) \\
+                       + self.eta_function(time_1 - delta, **kwargs)
+"""
+def _eta_helper(helper):
+    import re as _re
+    body = _re.sub(r"self\.eta_function\(([^,]+), \*\*kwargs\)", r"eta(\1)", _ETA_BODY)
+    return _sub(BC, _ETA_BODY, helper + "\n" + body)
+for _pid, _rule in (("C12", "L1"), ("C01", "N5")):
+    brk(_pid, "eta evaluated at times rounded to 12 decimals through a local helper", _rule,
+        _eta_helper("        eta = lambda tau: self.eta_function(round(float(tau), 12), **kwargs)\n"))
+    brk(_pid, "eta evaluated at times clipped at zero", _rule,
+        _eta_helper("        def eta(tau):\n            return self.eta_function(max(tau, 0.0), **kwargs)\n"))
+    ok(_pid, "eta evaluated through a local lambda helper", 
+       _eta_helper("        eta = lambda tau: self.eta_function(tau, **kwargs)\n"))
+    ok(_pid, "eta evaluated through a nested helper function with a float cast",
+       _eta_helper("        def eta(tau):\n            return self.eta_function(float(tau), **kwargs)\n"))
+
+# ------------------------------------------------------------------ containers keep values (C04 D7, C10 I8)
+MM = "oqupy/mps_mpo.py"
+_LAM_OK = '                assert len(tmp_lambda) == bond_dim\n            tmp_lambdas.append(tmp_lambda)\n'
+for _pid, _rule in (("C04", "D7"), ("C10", "I8")):
+    brk(_pid, "AugmentedMPS normalises the lambdas it is given to unit 2-norm", _rule, _sub(
+        MM, _LAM_OK, '                assert len(tmp_lambda) == bond_dim\n                tmp_lambda = tmp_lambda / np.linalg.norm(tmp_lambda)\n            tmp_lambdas.append(tmp_lambda)\n'))
+    brk(_pid, "AugmentedMPS scales every gamma to unit largest element", _rule, _sub(
+        MM, '            tmp_gammas.append(tmp_gamma)\n', '            tmp_gamma /= np.abs(tmp_gamma).max()\n            tmp_gammas.append(tmp_gamma)\n'))
+    ok(_pid, "AugmentedMPS stores contiguous copies of the lambdas", _sub(
+        MM, _LAM_OK, '                assert len(tmp_lambda) == bond_dim\n                tmp_lambda = np.ascontiguousarray(tmp_lambda).copy()\n            tmp_lambdas.append(tmp_lambda)\n'))
+    ok(_pid, "AugmentedMPS computes the norm of the lambdas for a log message only", _sub(
+        MM, _LAM_OK, '                assert len(tmp_lambda) == bond_dim\n                weight = np.linalg.norm(tmp_lambda)\n            tmp_lambdas.append(tmp_lambda)\n'))
+
+# ------------------------------------------------------------------ rotation pair set for every back end (C05 E2, C02 S6)
+_LRS_PAIR = '        self._super_u = op.left_right_super(\n            self._unitary_transform,\n            self._unitary_transform.conjugate().T)\n        self._super_u_dagg = op.left_right_super(\n            self._unitary_transform.conjugate().T,\n            self._unitary_transform)\n\n'
+_LRS_ROT = '                tmp = dot(moveaxis(infl_four_legs, 1, -1),\n                        self._super_u_dagg)\n                tmp = moveaxis(tmp, -1, 1)\n                tmp = np.dot(tmp, self._super_u.T)\n                infl_four_legs = tmp\n'
+_LRS_ROT_GUARDED = '                if self._super_u is not None:\n                    tmp = dot(moveaxis(infl_four_legs, 1, -1),\n                              self._super_u_dagg)\n                    tmp = moveaxis(tmp, -1, 1)\n                    infl_four_legs = np.dot(tmp, self._super_u.T)\n'
+_BASE_INIT_NONE = '        self._super_u = None\n        self._super_u_dagg = None\n'
+for _pid, _rule in (("C05", "E2"), ("C02", "S6")):
+    brk(_pid, "rotation pair built only by the TempoBackend constructor, rotation skipped when it is missing", _rule, _multi(
+        _sub(TB, _LRS_PAIR, ''),
+        _sub(TB, _LRS_ROT, _LRS_ROT_GUARDED),
+        _sub(TB, '        self._propagators = propagators\n\n    def initialize(self) -> Tuple[int, ndarray]:',
+             '        self._propagators = propagators\n        u_dagg = unitary_transform.conjugate().T\n        self._super_u = op.left_right_super(unitary_transform, u_dagg)\n        self._super_u_dagg = op.left_right_super(u_dagg, unitary_transform)\n\n    def initialize(self) -> Tuple[int, ndarray]:')))
+    ok(_pid, "rotation pair built by the BaseTempoBackend constructor", _multi(
+        _sub(TB, _LRS_PAIR, ''),
+        _sub(TB, _BASE_INIT_NONE, '        self._super_u = op.left_right_super(\n            unitary_transform,\n            unitary_transform.conjugate().T)\n        self._super_u_dagg = op.left_right_super(\n            unitary_transform.conjugate().T,\n            unitary_transform)\n')))
+    ok(_pid, "rotation pair built by the BaseTempoBackend constructor unless the transform is the identity", _multi(
+        _sub(TB, _LRS_PAIR, ''),
+        _sub(TB, _LRS_ROT, _LRS_ROT_GUARDED),
+        _sub(TB, _BASE_INIT_NONE, _BASE_INIT_NONE + '        if not np.allclose(unitary_transform, np.identity(len(unitary_transform))):\n            self._super_u = op.left_right_super(\n                unitary_transform,\n                unitary_transform.conjugate().T)\n            self._super_u_dagg = op.left_right_super(\n                unitary_transform.conjugate().T,\n                unitary_transform)\n')))
+
+for _pid, _rule in (("C03", "M9"), ("C18", "O6"), ("C20", "A9")):
+    brk(_pid, "first MPO tensor of the step rescaled in place (element of the list the helper returns)", _rule, _sub(
+        SD, '            pt_mpos = _get_pt_mpos(process_tensors, step)\n\n            current_node, current_edges = _apply_system_superoperator(\n                current_node, current_edges, first_half_prop)\n',
+        '            pt_mpos = _get_pt_mpos(process_tensors, step)\n            pt_mpos[0] /= np.max(np.abs(pt_mpos[0]))\n\n            current_node, current_edges = _apply_system_superoperator(\n                current_node, current_edges, first_half_prop)\n'))
+    ok(_pid, "first MPO tensor of the step replaced by a rescaled copy in the helper's list", _sub(
+        SD, '            pt_mpos = _get_pt_mpos(process_tensors, step)\n\n            current_node, current_edges = _apply_system_superoperator(\n                current_node, current_edges, first_half_prop)\n',
+        '            pt_mpos = _get_pt_mpos(process_tensors, step)\n            pt_mpos[0] = pt_mpos[0] / 1.0\n\n            current_node, current_edges = _apply_system_superoperator(\n                current_node, current_edges, first_half_prop)\n'))
+
 for _pid in ["C01", "C02", "C03", "C04", "C05", "C06", "C07", "C08", "C09", "C10", "C11", "C12", "C13",
              "C14", "C15", "C16", "C17", "C18", "C19", "C20"]:
     ok(_pid, "whole package re-printed with ast.unparse (layout, comments, line numbers)", _reformat_all)
